@@ -191,6 +191,8 @@ pub fn run(run: &Run) {
     crate::props::c16::unissued_liquidity_tokens(run, run.thorough());
     run_std_genesis(run, if run.thorough() { 8 } else { 6 });
     huge_amounts(run, run.thorough());
+    // C15's scenario of the same kind (three swaps per side and block, one level deeper): shares that round down to nothing
+    crate::props::c15::huge_amounts(run, run.thorough());
     many_huge_requests(run, run.thorough());
     for sc in scenarios(run.thorough()) {
         sample_alphabet(run, &sc);
